@@ -31,6 +31,17 @@ type ObResult struct {
 
 // buildQuery renders the SMT-LIB text for obligation i of ctx.
 func buildQuery(c *Ctx, i int, wantModel bool, forCVC5 bool) string {
+	return buildQueryOpt(c, i, wantModel, forCVC5, false)
+}
+
+func isQuantified(f string) bool {
+	return strings.Contains(f, "(forall ") || strings.Contains(f, "(exists ")
+}
+
+// buildQueryOpt: with noQuant the quantified assumptions are left out (a
+// weaker context: unsat still proves the obligation, anything else is
+// inconclusive).
+func buildQueryOpt(c *Ctx, i int, wantModel bool, forCVC5 bool, noQuant bool) string {
 	it := c.items[i]
 	var b strings.Builder
 	if wantModel {
@@ -40,6 +51,13 @@ func buildQuery(c *Ctx, i int, wantModel bool, forCVC5 bool) string {
 	for k, d := range c.decls[:it.DeclPos] {
 		if strings.HasPrefix(d, "LAMBDA\t") {
 			d = expandLambdaDecl(d, forCVC5)
+		}
+		if strings.HasPrefix(d, "SOLVERDEF\t") {
+			parts := strings.SplitN(d, "\t", 3)
+			d = parts[1]
+			if forCVC5 {
+				d = parts[2]
+			}
 		}
 		b.WriteString(d)
 		b.WriteByte('\n')
@@ -52,6 +70,10 @@ func buildQuery(c *Ctx, i int, wantModel bool, forCVC5 bool) string {
 		}
 	}
 	rel := c.relevantGuards(it.Guard)
+	var slice map[int]bool
+	if noQuant {
+		slice = c.coneOfInfluence(i, rel)
+	}
 	for j := 0; j < i; j++ {
 		p := c.items[j]
 		if p.Kind == ItOblig && p.Expect == "sat" {
@@ -73,6 +95,9 @@ func buildQuery(c *Ctx, i int, wantModel bool, forCVC5 bool) string {
 			default:
 				continue
 			}
+		}
+		if noQuant && (isQuantified(p.Formula) || (slice != nil && !slice[j])) {
+			continue
 		}
 		b.WriteString("(assert " + implies(p.Guard, p.Formula) + ")\n")
 	}
@@ -117,6 +142,11 @@ func runSolver(s solverSpec, file string, timeout int) (string, string, float64)
 	}
 	return "error", text, dt
 }
+
+var raceSem = make(chan struct{}, 5)
+
+// solverHints: obligation (stable name) -> back end that decided it last time.
+var solverHints = map[string]string{}
 
 type solverAns struct {
 	name, res, out string
@@ -182,7 +212,7 @@ func discharge(c *Ctx, i int, fnKey string, tmp string, timeout int) ObResult {
 	defer os.Remove(file)
 	hasLambda := strings.Contains(q, "(lambda ")
 	cvcFile := file
-	if hasLambda {
+	if hasLambda || strings.Contains(q, "bvumul_noovfl") {
 		cvcFile = filepath.Join(tmp, fmt.Sprintf("q_%p_%d_cvc5.smt2", c, i))
 		os.WriteFile(cvcFile, []byte(buildQuery(c, i, false, true)), 0o644)
 		defer os.Remove(cvcFile)
@@ -191,13 +221,69 @@ func discharge(c *Ctx, i int, fnKey string, tmp string, timeout int) ObResult {
 	// trivial); then the full race
 	var win solverAns
 	var all []solverAns
-	res, out, dt := runSolver(solvers[0], file, 2)
+	first := 8
+	if timeout < first {
+		first = timeout
+	}
+	// solver hints (speed only): an obligation that another back end
+	// decided last time goes to that back end first
+	if h := solverHints[stableName(it.Name)]; h != "" && h != solvers[0].name {
+		for _, sv := range solvers {
+			if sv.name != h {
+				continue
+			}
+			qf := file
+			if strings.HasPrefix(sv.name, "cvc5") {
+				qf = cvcFile
+			}
+			resH, outH, dtH := runSolver(sv, qf, timeout)
+			r.Seconds += dtH
+			if resH == "unsat" || resH == "sat" {
+				r.Solver = sv.name
+				r.Output = fmt.Sprintf("[%s, hinted] %s (%.2fs)", sv.name, strings.TrimSpace(truncate(outH, 100)), dtH)
+				switch {
+				case resH == "unsat" && it.Expect == "sat":
+					r.Status = "vacuous"
+				case resH == "unsat":
+					r.Status = "proved"
+				case it.Expect == "sat":
+					r.Status = "sat-ok"
+				default:
+					r.Status = "failed"
+				}
+				return r
+			}
+		}
+	}
+	// stage A: without the quantified assumptions (most obligations do not
+	// need them and they slow every solver down); only unsat is conclusive
+	if it.Expect != "sat" && !isQuantified(it.Formula) {
+		qa := buildQueryOpt(c, i, false, false, true)
+		if len(qa) != len(q) {
+			fa := filepath.Join(tmp, fmt.Sprintf("q_%p_%d_a.smt2", c, i))
+			os.WriteFile(fa, []byte(qa), 0o644)
+			resA, outA, dtA := runSolver(solvers[0], fa, 4)
+			os.Remove(fa)
+			r.Seconds += dtA
+			if resA == "unsat" {
+				r.Solver = solvers[0].name
+				r.Status = "proved"
+				r.Output = fmt.Sprintf("[%s, quantified assumptions left out] %s (%.2fs)", solvers[0].name, strings.TrimSpace(truncate(outA, 100)), dtA)
+				return r
+			}
+		}
+	}
+	res, out, dt := runSolver(solvers[0], file, first)
 	if res == "sat" || res == "unsat" {
 		win = solverAns{solvers[0].name, res, out, dt}
 		all = []solverAns{win}
 	} else {
 		r.Seconds += dt
+		// at most a few portfolio races at a time, so that each solver gets
+		// a whole core and timings stay stable
+		raceSem <- struct{}{}
 		win, all = race(file, cvcFile, timeout)
+		<-raceSem
 	}
 	var outputs []string
 	for _, a := range all {
@@ -426,4 +512,119 @@ func guardRelevant(c *Ctx, rel map[string]bool, guard string) bool {
 		}
 	}
 	return true
+}
+
+// ---------------------------------------------------------------- slicing
+
+func ubiquitous(sym string) bool {
+	for _, p := range []string{"H0", "Hhv", "alloc", "objtype", "str_empty", "slen", "sbyte", "ix", "glob!", "strlit!", "fn!"} {
+		if strings.HasPrefix(sym, p) {
+			return true
+		}
+	}
+	return false
+}
+
+// symIndex maps every declared or defined name to the set of declared
+// (base) symbols it depends on.
+func (c *Ctx) symIndex() map[string]map[string]bool {
+	if c.syms != nil && c.symsN == len(c.decls) {
+		return c.syms
+	}
+	idx := map[string]map[string]bool{}
+	for _, d := range c.decls {
+		switch {
+		case strings.HasPrefix(d, "(declare-const "), strings.HasPrefix(d, "(declare-fun "):
+			rest := d[strings.Index(d, " ")+1:]
+			name := rest[:strings.IndexAny(rest, " )")]
+			idx[name] = map[string]bool{name: true}
+		case strings.HasPrefix(d, "(define-fun "):
+			rest := d[len("(define-fun "):]
+			sp := strings.Index(rest, " ")
+			name := rest[:sp]
+			set := map[string]bool{}
+			for _, t := range identTokens(rest[sp:]) {
+				for b := range idx[t] {
+					set[b] = true
+				}
+			}
+			idx[name] = set
+		case strings.HasPrefix(d, "LAMBDA\t"):
+			parts := strings.SplitN(d, "\t", 4)
+			set := map[string]bool{}
+			for _, t := range identTokens(parts[3]) {
+				for b := range idx[t] {
+					set[b] = true
+				}
+			}
+			idx[parts[1]] = set
+		}
+	}
+	c.syms, c.symsN = idx, len(c.decls)
+	return idx
+}
+
+func (c *Ctx) symsOf(term string) map[string]bool {
+	idx := c.symIndex()
+	out := map[string]bool{}
+	for _, t := range identTokens(term) {
+		for b := range idx[t] {
+			if !ubiquitous(b) {
+				out[b] = true
+			}
+		}
+	}
+	return out
+}
+
+// coneOfInfluence selects the earlier assumptions that share (transitively)
+// a non-ubiquitous symbol with obligation i.  Leaving the others out only
+// weakens the context.
+func (c *Ctx) coneOfInfluence(i int, rel map[string]bool) map[int]bool {
+	it := c.items[i]
+	cur := c.symsOf(it.Formula)
+	for _, h := range it.Hyps {
+		for s := range c.symsOf(h) {
+			cur[s] = true
+		}
+	}
+	type cand struct {
+		j    int
+		syms map[string]bool
+	}
+	var cands []cand
+	for j := 0; j < i; j++ {
+		p := c.items[j]
+		if p.Kind == ItOblig && p.Expect == "sat" {
+			continue
+		}
+		if !guardRelevant(c, rel, p.Guard) {
+			continue
+		}
+		cands = append(cands, cand{j, c.symsOf(p.Formula)})
+	}
+	keep := map[int]bool{}
+	for changed := true; changed; {
+		changed = false
+		for _, cd := range cands {
+			if keep[cd.j] {
+				continue
+			}
+			hit := len(cd.syms) == 0
+			for s := range cd.syms {
+				if cur[s] {
+					hit = true
+					break
+				}
+			}
+			if hit {
+				keep[cd.j] = true
+				changed = true
+				for s := range cd.syms {
+					cur[s] = true
+				}
+			}
+		}
+	}
+	return keep
 }
